@@ -29,7 +29,7 @@ ASSUMPTIONS = [
     'ignore-patterns anchored on one side only, or able to match the empty string, are unspecified',
 ]
 REQUIRED_MONITORS = ['history:options_withdrawn', 'contract:check_strings', 'oracle:must-pass', 'oracle:must-fail', 'entry:check_strings',
-                     'entry:string', 'entry:file', 'entry:files']
+                     'entry:string', 'entry:file', 'entry:files', 'files:paths_shared_between_pairs']
 REQUIRED_CLASSES = ['subset=0', 'subset=127']
 
 _rt = None
@@ -78,6 +78,9 @@ def gen_case(rng, i=None, shard=0):
             good = T.to_text(rng, ref)
             case['others'] = [[good, good], [T.to_text(rng, act[:2]), T.to_text(rng, act[:2])]]
             case['pos'] = rng.randrange(3)
+            if rng.random() < 0.35:
+                # further pairs that recombine an actual file and a reference file already named in other pairs of the same call
+                case['cross'] = [rng.sample(range(3), 2) for _ in range(rng.choice([1, 2]))]
     return case
 
 
@@ -138,6 +141,11 @@ def run_case(ctx, case):
                     aps.append(pa)
                     eps.append(pe)
                     pairs.append((a.splitlines(), e.splitlines()))
+                for i_, j_ in case.get('cross') or []:
+                    aps.append(aps[i_])
+                    eps.append(eps[j_])
+                    pairs.append((texts[i_][0].splitlines(), texts[j_][1].splitlines()))
+                    rec.event('files:paths_shared_between_pairs')
                 r.assertTextFilesCorrect(aps, eps, **ro)
             if len(_outcomes) != 1:
                 rec.violation('assert_fn_calls', {'case': case, 'mech': {'entry': entry}, 'facts': {'n': len(_outcomes)}})
@@ -201,7 +209,7 @@ def run_case(ctx, case):
                      'strip_only_excuse': bool(info.get('strip_only_excuse')),
                      'perm_strip_only': bool(info.get('perm_strip_only')),
                      'strip': bool(o.get('lstrip') or o.get('rstrip')),
-                     'patterns': bool(o.get('ignore_patterns'))},
+                     'patterns': bool(o.get('ignore_patterns')), **({'paths_shared_between_pairs': True} if case.get('cross') else {})},
             'facts': {'oracle': want, 'tdda': got, 'info': info, 'entry': entry, 'opts': sorted(o)}})
         return
     for b in broken:
